@@ -263,7 +263,7 @@ func (nopYield) Point(string) {}
 
 type exploreStats struct {
 	states, transitions, executions int64
-	capped                          bool
+	capped, expired                 bool
 }
 
 func opNames(ops [][]readOp) []string {
@@ -289,6 +289,10 @@ func explore(h *hz.H, md protoreflect.MessageDescriptor, variant int, ops [][]re
 	rec = func(prefix []int, preemptions int) {
 		if st.executions >= maxExec {
 			st.capped = true
+			return
+		}
+		if st.executions&31 == 0 && h.Expired() {
+			st.capped, st.expired = true, true
 			return
 		}
 		x := execute(md, variant, ops, prefix)
@@ -432,9 +436,17 @@ func runScheduler(h *hz.H) {
 	}
 	jobs = mine
 	h.Workers = 1
+	skipped := 0
 	h.Par(int64(len(jobs)), "scheduler harnesses", func(i int64) {
 		j := jobs[i]
 		var s exploreStats
+		if h.Expired() {
+			mu.Lock()
+			st.capped, st.expired = true, true
+			skipped++
+			mu.Unlock()
+			return
+		}
 		bound := j.bound
 		if !h.Thorough() {
 			// long programs get preemption bound 1 in the quick tier so that the exploration completes; the bound used is reported
@@ -453,11 +465,17 @@ func runScheduler(h *hz.H) {
 		if s.capped {
 			st.capped = true
 		}
+		if s.expired {
+			st.expired = true
+		}
 		if h.WantSample() && s.executions > 3 {
 			h.Sample(map[string]interface{}{"part": "A", "type": string(j.md.FullName()), "threads": opNames(j.ops), "preemption_bound": j.bound, "schedules_explored": s.executions, "scheduler_states": s.states})
 		}
 		mu.Unlock()
 	})
+	if st.expired {
+		h.Cap(fmt.Sprintf("Part A: time budget reached (%d harnesses of this shard not started, others cut short)", skipped))
+	}
 	if st.capped {
 		h.Cap("Part A: per-harness execution cap reached for at least one harness (preemption-bounded exploration completed below the cap)")
 	}
@@ -467,7 +485,7 @@ func runScheduler(h *hz.H) {
 	for b, n := range boundsUsed {
 		h.Counter(fmt.Sprintf("partA_harnesses_explored_with_preemption_bound_%d", b), int64(n))
 	}
-	if st.executions < int64(len(jobs))*2 {
+	if !st.expired && st.executions < int64(len(jobs))*2 {
 		h.InternalError("vacuous: the scheduler explored fewer than two schedules per harness on average")
 	}
 }
